@@ -432,6 +432,14 @@ func (s *Subscriber) SyncAdChain(ctx context.Context, peerInfo peer.AddrInfo, op
 		return cid.Undef, err
 	}
 
+	// Wait for any other sync for this publisher to finish before reading
+	// the latest sync to stop at, and hold the lock until the new latest sync
+	// is recorded and the event is sent. Otherwise a concurrent sync of the
+	// same publisher is given the same stop CID and syncs the same
+	// advertisements again.
+	hnd.syncMutex.Lock()
+	defer hnd.syncMutex.Unlock()
+
 	// Set depth limit to ads depth limit unless scoped depth is non-zero.
 	depthLimit := s.adsDepthLimit
 	if opts.depthLimit != 0 {
@@ -589,7 +597,9 @@ func (s *Subscriber) syncEntries(ctx context.Context, peerInfo peer.AddrInfo, en
 	if err != nil {
 		panic(err.Error())
 	}
+	hnd.syncMutex.Lock()
 	_, err = hnd.handle(ctx, entCid, sel, syncer, bh, segdl, cid.Undef)
+	hnd.syncMutex.Unlock()
 	if err != nil {
 		return fmt.Errorf("sync handler failed: %w", err)
 	}
@@ -874,6 +884,12 @@ func (h *handler) asyncSyncAdChain(ctx context.Context) {
 	amsg := h.pendingMsg.Swap(nil)
 	verifYield("async:taken", h.peerID)
 
+	// Wait for any other sync for this publisher to finish before reading
+	// the latest sync to stop at, and hold the lock until the new latest sync
+	// is recorded and the event is sent.
+	h.syncMutex.Lock()
+	defer h.syncMutex.Unlock()
+
 	adsDepthLimit := h.subscriber.adsDepthLimit
 	nextCid := amsg.Cid
 	latestSyncLink := h.subscriber.GetLatestSync(h.peerID)
@@ -1002,6 +1018,7 @@ func (h *handler) sendSyncFinishedEvent(c cid.Cid, count int) {
 }
 
 // handle processes a message from the peer that the handler is responsible for.
+// The caller must hold h.syncMutex.
 func (h *handler) handle(ctx context.Context, nextCid cid.Cid, sel ipld.Node, syncer Syncer, bh BlockHookFunc, segdl int64, stopAtCid cid.Cid) (int, error) {
 	log := log.With("cid", nextCid, "peer", h.peerID)
 
@@ -1017,10 +1034,9 @@ func (h *handler) handle(ctx context.Context, nextCid cid.Cid, sel ipld.Node, sy
 		}
 	}
 
-	// Wait for any previous sync for this peer ID to finish. This is necessary
-	// to protect the scopedBlockHook map from having having another hook
-	// mapped to this peer ID.
-	h.syncMutex.Lock()
+	// Any previous sync for this peer ID has finished, since the caller holds
+	// h.syncMutex. This is necessary to protect the scopedBlockHook map from
+	// having having another hook mapped to this peer ID.
 	verifYield("handle:locked", h.peerID)
 	h.subscriber.scopedBlockHookMutex.Lock()
 	h.subscriber.scopedBlockHook[h.peerID] = hook
@@ -1030,7 +1046,6 @@ func (h *handler) handle(ctx context.Context, nextCid cid.Cid, sel ipld.Node, sy
 		delete(h.subscriber.scopedBlockHook, h.peerID)
 		h.subscriber.scopedBlockHookMutex.Unlock()
 		verifYield("handle:unlocking", h.peerID)
-		h.syncMutex.Unlock()
 	}()
 
 	var syncBySegment bool
